@@ -146,7 +146,7 @@ def sobol(t, mask, marginals=None, normalize=True):
         else:
             am.Us[n][1:, :] *= m[:, None]
     am_masked = tn.mask(am, mask)
-    if am_masked.cores[-1].dim() == 3 and am_masked.cores[-1].shape[-1] > 1:
+    if mask.cores[-1].dim() == 3 and mask.cores[-1].shape[-1] > 1:  # Open bond (one-hot masks)
         am_masked.cores.append(
             torch.eye(
                 am_masked.cores[-1].shape[-1], dtype=am_masked.cores[-1].dtype
